@@ -355,7 +355,9 @@ def extra(tier, base_seed):
             herr.append("conformance case %d: simulated run did not return (%s)" % (i, sim.status))
             continue
         outp = os.path.join(bw.tmpdir(), "conf%d.npz" % i)
-        before = set(n for n in os.listdir("/dev/shm") if n.startswith(("ibkg_", "irms_")))
+        segfile = outp + ".segments"
+        if os.path.exists(segfile):
+            os.remove(segfile)
         t0 = time.time()
         p = subprocess.Popen([sys.executable, os.path.join(here, "repro", "real_run.py"), fn, outp,
                               json.dumps({k: cfg[k] for k in ("grid", "box", "cores", "mask", "nslice", "cube_index")})],
@@ -371,8 +373,9 @@ def extra(tier, base_seed):
                 p.kill()
             p.communicate()
         info["real_wall_s"] += time.time() - t0
-        after = set(n for n in os.listdir("/dev/shm") if n.startswith(("ibkg_", "irms_")))
-        left = sorted(after - before)
+        # only the segments this very run created are looked at (other programs may use /dev/shm concurrently)
+        mine = [l.strip() for l in open(segfile)] if os.path.exists(segfile) else []
+        left = sorted(n for n in mine if os.path.exists(os.path.join("/dev/shm", n)))
         for n in left:
             try:
                 os.unlink(os.path.join("/dev/shm", n))
